@@ -347,6 +347,17 @@ func c06EnumUseSites(c *Check, pool *NodePool, root string) {
 		refCode := "globalThis.__f = () => " + run + "([" + strings.Join(ref, ",\n") + "]);"
 		codes := []string{refCode}
 		names := []string{"reference"}
+		// the same use sites in the file that declares the enums (values inlined by the parser), plain transform
+		localBody := strings.NewReplacer("ns.R", "R", "ns.E", "E").Replace(strings.Join(body, ",\n"))
+		for _, minify := range []bool{false, true} {
+			r := api.Transform(strings.ReplaceAll(enumDecl.String(), "export ", "")+"(globalThis as any).__f = () => "+run+"(["+localBody+"]);", api.TransformOptions{Loader: api.LoaderTS, MinifySyntax: minify, LogLevel: api.LogLevelSilent})
+			c.Eval(1)
+			if len(r.Errors) == 0 {
+				c.Distinct(string(r.Code))
+				codes = append(codes, string(r.Code))
+				names = append(names, fmt.Sprintf("same-file-transform-minify=%v", minify))
+			}
+		}
 		for _, cfg := range []struct {
 			name   string
 			minify bool
